@@ -463,11 +463,26 @@ Definition back_body (r : B.request) (h : B.handler) (rs : B.response) : body :=
            end
        end.
 
-Definition of_back_handler (r : B.request) (h : B.handler) (rs : B.response) : response :=
-  mk (B.rs_status rs) LNone [] [] (flat_map call_of_back (B.rs_calls rs)) (back_body r h rs) (Some (HBack h)).
+(* One effect AuthBack's response type has no room for: Redeem answers an EXPIRED code (one that
+   does open under the auth-code key) with p.sessionStore.ClearSession — a clearing Set-Cookie for
+   the browser's session cookie on a back-channel response (authenticator.go:666-674). *)
+Definition redeem_clears (d : deployment) (e : B.env) (r : B.request) (fs : B.form_state) : bool :=
+  let '(fs', err) := B.parse_form r fs in
+  negb err &&
+  match B.unseal e (d_code_key d) (B.form_get B.k_code (B.form_of fs')) with
+  | Some s => ((B.s_refresh_dl s <? B.e_now e) || (B.s_lifetime_dl s <? B.e_now e))%Z
+  | None => false
+  end.
+
+Definition of_back_handler (r : B.request) (h : B.handler) (clears : bool) (rs : B.response) : response :=
+  mk (B.rs_status rs) LNone (if clears then [F.OpClear] else []) [] (flat_map call_of_back (B.rs_calls rs))
+     (back_body r h rs) (Some (HBack h)).
 
 Definition h_back (d : deployment) (p : F.pkind) (o : oracles) (an : answers) (now_s : Z) (h : B.handler) : hfun :=
-  fun r fs => of_back_handler r h (B.run_handler (bcfg d) (benv d p o an now_s) h r fs).
+  fun r fs =>
+    let e := benv d p o an now_s in
+    of_back_handler r h (match h with B.HRedeem => redeem_clears d e r fs | _ => false end)
+                    (B.run_handler (bcfg d) e h r fs).
 
 (* ------------------------------------------------------------------------------------------ *)
 (* the route table of newMux, authenticator.go:111-118, as data, in source order              *)
